@@ -18,24 +18,305 @@ def wrapIdx (M x : Nat) : Nat := if x < M then x else x - M
 def abs (M : Nat) (s : Shared) : List UInt8 :=
   (List.range (usedSpace M s)).map fun i => s.data.getD (wrapIdx M (s.rd + i)) 0
 
+/-! ## auxiliary lemmas -/
+
+theorem toPint_eq {n : Nat} (h : n < 2147483648) : toPint n = (n : Int) := by
+  unfold toPint
+  rw [BitVec.toInt_eq_toNat_cond]
+  simp
+  have : n % 4294967296 = n := Nat.mod_eq_of_lt (by omega)
+  rw [this]
+  omega
+
+theorem usedSpace_eq {M : Nat} {s : Shared} (wf : WF M s) :
+    usedSpace M s = if s.rd ≤ s.wr then s.wr - s.rd else M - (s.rd - s.wr) := by
+  obtain ⟨mlo, mhi, hrd, hwr, hlen⟩ := wf
+  unfold usedSpace sub64 W
+  split <;> split <;> (try split) <;> omega
+
+theorem freeSpace_eq {M : Nat} {s : Shared} (wf : WF M s) :
+    freeSpace M s = if s.rd ≤ s.wr then M - 1 - (s.wr - s.rd) else s.rd - s.wr - 1 := by
+  obtain ⟨mlo, mhi, hrd, hwr, hlen⟩ := wf
+  unfold freeSpace sub64 W
+  split <;> split <;> (try split) <;> omega
+
+theorem ext_getD {l1 l2 : List UInt8} (hl : l1.length = l2.length)
+    (h : ∀ i, i < l1.length → l1.getD i 0 = l2.getD i 0) : l1 = l2 := by
+  apply List.ext_getElem hl
+  intro i h1 h2
+  have := h i h1
+  simpa [List.getD_eq_getElem?_getD, h1, h2] using this
+
+theorem abs_length (M : Nat) (s : Shared) : (abs M s).length = usedSpace M s := by
+  simp [abs]
+
+theorem abs_getD {M : Nat} {s : Shared} {i : Nat} (h : i < usedSpace M s) :
+    (abs M s).getD i 0 = s.data.getD (wrapIdx M (s.rd + i)) 0 := by
+  simp [abs, List.getD_eq_getElem?_getD, h]
+
+theorem abs_nil {M : Nat} {s : Shared} (h : usedSpace M s = 0) : abs M s = [] := by
+  simp [abs, h]
+
+theorem getD_drop (xs : List UInt8) (k j : Nat) : (xs.drop k).getD j 0 = xs.getD (k + j) 0 := by
+  simp [List.getD_eq_getElem?_getD, List.getElem?_drop]
+
+theorem getD_take (xs : List UInt8) (k j : Nat) (h : j < k) : (xs.take k).getD j 0 = xs.getD j 0 := by
+  simp [List.getD_eq_getElem?_getD, h]
+
+theorem getD_append_left (xs ys : List UInt8) (j : Nat) (h : j < xs.length) : (xs ++ ys).getD j 0 = xs.getD j 0 := by
+  simp [List.getD_eq_getElem?_getD, List.getElem?_append, h]
+
+theorem getD_append_right (xs ys : List UInt8) (j : Nat) (h : xs.length ≤ j) : (xs ++ ys).getD j 0 = ys.getD (j - xs.length) 0 := by
+  have : ¬ j < xs.length := by omega
+  simp [List.getD_eq_getElem?_getD, List.getElem?_append, this]
+
+
+theorem setRange_spec (d : List UInt8) (st : Nat) (xs : List UInt8) (h : st + xs.length ≤ d.length) :
+    ∃ d', setRange d st xs = some d' ∧ d'.length = d.length ∧
+      ∀ j, d'.getD j 0 = if st ≤ j ∧ j < st + xs.length then xs.getD (j - st) 0 else d.getD j 0 := by
+  refine ⟨d.take st ++ xs ++ d.drop (st + xs.length), by simp [setRange, h], ?_, ?_⟩
+  · simp; omega
+  · intro j
+    simp only [List.getD_eq_getElem?_getD, List.getElem?_append, List.getElem?_take, List.getElem?_drop, List.length_append, List.length_take]
+    have hm : min st d.length = st := by omega
+    rw [hm]
+    by_cases h1 : j < st
+    · have : j < st + xs.length := by omega
+      have h3 : ¬ (st ≤ j ∧ j < st + xs.length) := by omega
+      rw [if_neg h3]; simp [h1, this]
+    · by_cases h2 : j < st + xs.length
+      · have h3 : (st ≤ j ∧ j < st + xs.length) := by omega
+        rw [if_pos h3]; simp [h1, h2]
+      · have h3 : ¬ (st ≤ j ∧ j < st + xs.length) := by omega
+        have h4 : st + xs.length + (j - (st + xs.length)) = j := by omega
+        rw [if_neg h3]; simp [h2, h4]
+
+theorem getRange_spec (d : List UInt8) (st len : Nat) (h : st + len ≤ d.length) :
+    ∃ o, getRange d st len = some o ∧ o.length = len ∧ ∀ j, j < len → o.getD j 0 = d.getD (st + j) 0 := by
+  refine ⟨(d.drop st).take len, by simp [getRange, h], ?_, ?_⟩
+  · simp; omega
+  · intro j hj
+    simp [List.getD_eq_getElem?_getD, List.getElem?_drop, hj]
+
+theorem used_cases {M : Nat} {s : Shared} (wf : WF M s) :
+    (s.rd ≤ s.wr → usedSpace M s = s.wr - s.rd) ∧ (s.wr < s.rd → usedSpace M s = M - (s.rd - s.wr)) := by
+  rw [usedSpace_eq wf]; split <;> omega
+
+theorem free_cases {M : Nat} {s : Shared} (wf : WF M s) :
+    (s.rd ≤ s.wr → freeSpace M s = M - 1 - (s.wr - s.rd)) ∧ (s.wr < s.rd → freeSpace M s = s.rd - s.wr - 1) := by
+  rw [freeSpace_eq wf]; split <;> omega
+
+theorem wrapIdx_cases (M x : Nat) : (x < M → wrapIdx M x = x) ∧ (M ≤ x → wrapIdx M x = x - M) := by
+  unfold wrapIdx; split <;> omega
+
+theorem mod_eq_wrapIdx {M x : Nat} (h : x < 2 * M) : x % M = wrapIdx M x := by
+  unfold wrapIdx
+  split
+  · exact Nat.mod_eq_of_lt (by omega)
+  · rw [Nat.mod_eq_sub_mod (by omega)]; exact Nat.mod_eq_of_lt (by omega)
+
+/-- the abstraction after a successful write -/
+theorem abs_write {M : Nat} {s s' : Shared} (wf : WF M s) (xs : List UInt8)
+    (hfit : xs.length ≤ freeSpace M s)
+    (hrd : s'.rd = s.rd) (hwr : s'.wr = (s.wr + xs.length) % M) (hl : s'.data.length = M)
+    (hin : ∀ i, i < xs.length → s'.data.getD (wrapIdx M (s.wr + i)) 0 = xs.getD i 0)
+    (hout : ∀ j, j < M → ¬ ((s.wr ≤ j ∧ j < s.wr + xs.length) ∨ j + M < s.wr + xs.length) →
+      s'.data.getD j 0 = s.data.getD j 0) :
+    WF M s' ∧ abs M s' = abs M s ++ xs := by
+  have hu := used_cases wf
+  have hf := free_cases wf
+  obtain ⟨mlo, mhi, hrd0, hwr0, hlen⟩ := wf
+  rw [mod_eq_wrapIdx (by omega)] at hwr
+  have hw := wrapIdx_cases M (s.wr + xs.length)
+  have wf' : WF M s' := ⟨mlo, mhi, by omega, by omega, hl⟩
+  refine ⟨wf', ?_⟩
+  have hu' := used_cases wf'
+  have hlen' : usedSpace M s' = usedSpace M s + xs.length := by omega
+  apply ext_getD
+  · simp [abs_length, hlen']
+  · intro i hi
+    rw [abs_length] at hi
+    rw [abs_getD hi, hrd]
+    rw [hlen'] at hi
+    clear hu' hlen' hw hwr wf'
+    have hw1 := wrapIdx_cases M (s.rd + i)
+    by_cases h1 : i < usedSpace M s
+    · rw [getD_append_left _ _ _ (by rw [abs_length]; exact h1), abs_getD h1]
+      apply hout
+      · omega
+      · omega
+    · rw [getD_append_right _ _ _ (by rw [abs_length]; omega), abs_length]
+      have hw2 := wrapIdx_cases M (s.wr + (i - usedSpace M s))
+      have : wrapIdx M (s.rd + i) = wrapIdx M (s.wr + (i - usedSpace M s)) := by omega
+      rw [this]
+      exact hin _ (by omega)
+
+
+theorem abs_read {M : Nat} {s : Shared} (wf : WF M s) (len c : Nat)
+    (hc : (usedSpace M s ≤ len → c = usedSpace M s) ∧ (len < usedSpace M s → c = len)) :
+    WF M { s with rd := (s.rd + c) % M } ∧ abs M { s with rd := (s.rd + c) % M } = (abs M s).drop len := by
+  have hu := used_cases wf
+  obtain ⟨mlo, mhi, hrd0, hwr0, hlen⟩ := wf
+  rw [mod_eq_wrapIdx (by omega)]
+  have hw := wrapIdx_cases M (s.rd + c)
+  have wf' : WF M { s with rd := wrapIdx M (s.rd + c) } := ⟨mlo, mhi, by simp only []; omega, hwr0, hlen⟩
+  refine ⟨wf', ?_⟩
+  have hu' := used_cases wf'
+  simp only [] at hu'
+  have hlen' : usedSpace M { s with rd := wrapIdx M (s.rd + c) } = usedSpace M s - len := by omega
+  apply ext_getD
+  · simp [abs_length, hlen']
+  · intro i hi
+    rw [abs_length] at hi
+    rw [abs_getD hi, getD_drop, abs_getD (by omega)]
+    simp only []
+    rw [hlen'] at hi
+    have hcl : c = len := by omega
+    clear hu' hlen' hc wf'
+    have hw1 := wrapIdx_cases M (wrapIdx M (s.rd + c) + i)
+    have hw2 := wrapIdx_cases M (s.rd + (len + i))
+    congr 1; omega
+
+theorem out_eq_take {M : Nat} {s : Shared} (len c : Nat) (out : List UInt8)
+    (hc : (usedSpace M s ≤ len → c = usedSpace M s) ∧ (len < usedSpace M s → c = len))
+    (hl : out.length = c) (hg : ∀ j, j < c → out.getD j 0 = s.data.getD (wrapIdx M (s.rd + j)) 0) :
+    out = (abs M s).take len := by
+  apply ext_getD
+  · simp [abs_length, hl]; omega
+  · intro i hi
+    rw [getD_take _ _ _ (by omega), abs_getD (by omega), hg i (by omega)]
+
+/-! ## the lemmas used by `PV.Props.C08` -/
+
 theorem used_add_free' {M : Nat} {s : Shared} (wf : WF M s) : usedSpace M s + freeSpace M s = M - 1 := by
-  sorry
+  have hu := used_cases wf
+  have hf := free_cases wf
+  obtain ⟨mlo, mhi, hrd0, hwr0, hlen⟩ := wf
+  omega
 
 theorem used_is_length' {M : Nat} {s : Shared} (wf : WF M s) : usedSpace M s = Queue.used (abs M s) := by
-  sorry
+  have _ := wf
+  simp [Queue.used, abs_length]
 
 theorem write_refines' {M : Nat} {s : Shared} (wf : WF M s) (xs : List UInt8) :
     ∃ s' r, write M s xs = .ok s' r ∧ WF M s' ∧ (abs M s', r) = Queue.write (M - 1) (abs M s) xs := by
-  sorry
+  have hu := used_cases wf
+  have hf := free_cases wf
+  have wf0 := wf
+  obtain ⟨mlo, mhi, hrd0, hwr0, hlen⟩ := wf
+  unfold write Queue.write
+  by_cases h0 : xs.length = 0
+  · exact ⟨s, -1, by simp [h0], wf0, by simp [h0]⟩
+  · rw [if_neg h0, if_neg h0]
+    by_cases h1 : freeSpace M s < xs.length
+    · refine ⟨s, 0, by simp [h1], wf0, ?_⟩
+      have : ¬ xs.length ≤ M - 1 - (abs M s).length := by rw [abs_length]; omega
+      simp [this]
+    · rw [if_neg h1]
+      have hq : xs.length ≤ M - 1 - (abs M s).length := by rw [abs_length]; omega
+      rw [if_pos hq]
+      simp only [Nat.mod_eq_of_lt hwr0]
+      by_cases h2 : s.wr + xs.length ≤ M
+      · rw [if_pos h2]
+        obtain ⟨d', e, hl, hg⟩ := setRange_spec s.data s.wr xs (by omega)
+        rw [e]
+        refine ⟨_, _, rfl, ?_⟩
+        have := abs_write (s' := { s with data := d', wr := (s.wr + xs.length) % M }) wf0 xs (by omega) rfl rfl (by simp [hl, hlen])
+          (by
+            intro i hi
+            have hw := wrapIdx_cases M (s.wr + i)
+            have : wrapIdx M (s.wr + i) = s.wr + i := by omega
+            simp only [this, hg]
+            rw [if_pos (by omega)]
+            congr 1; omega)
+          (by
+            intro j hj hn
+            simp only [hg]
+            rw [if_neg (by omega)])
+        exact ⟨this.1, by rw [this.2]⟩
+      · rw [if_neg h2]
+        have hk : (xs.take (M - s.wr)).length = M - s.wr := by simp; omega
+        have hk2 : (xs.drop (M - s.wr)).length = xs.length - (M - s.wr) := by simp
+        obtain ⟨d1, e1, hl1, hg1⟩ := setRange_spec s.data s.wr (xs.take (M - s.wr)) (by omega)
+        obtain ⟨d2, e2, hl2, hg2⟩ := setRange_spec d1 0 (xs.drop (M - s.wr)) (by omega)
+        rw [e1]; simp only []; rw [e2]
+        refine ⟨_, _, rfl, ?_⟩
+        have := abs_write (s' := { s with data := d2, wr := (s.wr + xs.length) % M }) wf0 xs (by omega) rfl rfl (by simp [hl2, hl1, hlen])
+          (by
+            intro i hi
+            have hw := wrapIdx_cases M (s.wr + i)
+            simp only [hg2, hg1, hk, hk2]
+            by_cases hc : s.wr + i < M
+            · have : wrapIdx M (s.wr + i) = s.wr + i := by omega
+              rw [this, if_neg (by omega), if_pos (by omega), getD_take _ _ _ (by omega)]
+              congr 1; omega
+            · have : wrapIdx M (s.wr + i) = s.wr + i - M := by omega
+              rw [this, if_pos (by omega), getD_drop]
+              congr 1; omega)
+          (by
+            intro j hj hn
+            simp only [hg2, hg1, hk, hk2]
+            rw [if_neg (by omega), if_neg (by omega)])
+        exact ⟨this.1, by rw [this.2]⟩
 
 theorem read_refines' {M : Nat} {s : Shared} (wf : WF M s) (len : Nat) :
     ∃ s' out r, read M s len = .ok s' (out, r) ∧ WF M s' ∧ (abs M s', out, r) = Queue.read (abs M s) len := by
-  sorry
+  have hu := used_cases wf
+  have wf0 := wf
+  obtain ⟨mlo, mhi, hrd0, hwr0, hlen⟩ := wf
+  unfold read Queue.read
+  by_cases h0 : len = 0
+  · exact ⟨s, [], -1, by simp [h0], wf0, by simp [h0]⟩
+  · rw [if_neg h0, if_neg h0]
+    by_cases h1 : s.rd = s.wr
+    · refine ⟨s, [], 0, by simp [h1], wf0, ?_⟩
+      have : abs M s = [] := abs_nil (by omega)
+      simp [this]
+    · rw [if_neg h1]
+      simp only [Nat.mod_eq_of_lt hrd0]
+      generalize hc : (if usedSpace M s ≤ len then usedSpace M s else len) = c
+      have hc' : (usedSpace M s ≤ len → c = usedSpace M s) ∧ (len < usedSpace M s → c = len) := by
+        rw [← hc]; split <;> omega
+      have hr := abs_read wf0 len c hc'
+      have hmin : ((min len (abs M s).length : Nat) : Int) = toPint c := by
+        rw [toPint_eq (by omega), abs_length]; congr 1; omega
+      rw [hmin, ← hr.2]
+      by_cases h2 : s.rd + c ≤ M
+      · rw [if_pos h2]
+        obtain ⟨o, e, hl, hg⟩ := getRange_spec s.data s.rd c (by omega)
+        rw [e]
+        refine ⟨_, _, _, rfl, hr.1, ?_⟩
+        have := out_eq_take (M := M) (s := s) len c o hc' hl (by
+          intro j hj
+          have hw := wrapIdx_cases M (s.rd + j)
+          rw [hg j hj]; congr 1; omega)
+        rw [this]
+      · rw [if_neg h2]
+        obtain ⟨a, ea, hla, hga⟩ := getRange_spec s.data s.rd (M - s.rd) (by omega)
+        obtain ⟨b, eb, hlb, hgb⟩ := getRange_spec s.data 0 (c - (M - s.rd)) (by omega)
+        rw [ea, eb]
+        refine ⟨_, _, _, rfl, hr.1, ?_⟩
+        have := out_eq_take (M := M) (s := s) len c (a ++ b) hc' (by simp [hla, hlb]; omega) (by
+          intro j hj
+          have hw := wrapIdx_cases M (s.rd + j)
+          by_cases hj2 : j < M - s.rd
+          · rw [getD_append_left _ _ _ (by omega), hga j hj2]; congr 1; omega
+          · rw [getD_append_right _ _ _ (by omega), hgb _ (by omega)]; congr 1; omega)
+        rw [this]
 
 theorem clear_refines' {M : Nat} {s : Shared} (wf : WF M s) : WF M (clear M s) ∧ abs M (clear M s) = [] := by
-  sorry
+  obtain ⟨mlo, mhi, hrd0, hwr0, hlen⟩ := wf
+  have wf' : WF M (clear M s) := ⟨mlo, mhi, by simp [clear]; omega, by simp [clear]; omega, by simp [clear]; omega⟩
+  refine ⟨wf', abs_nil ?_⟩
+  have := used_cases wf'
+  simp [clear] at this
+  exact this
 
 theorem init_refines' {M : Nat} (h1 : 2 ≤ M) (h2 : M < 2147483648) : WF M (init M) ∧ abs M (init M) = [] := by
-  sorry
+  have wf' : WF M (init M) := ⟨h1, h2, by simp [init]; omega, by simp [init]; omega, by simp [init]⟩
+  refine ⟨wf', abs_nil ?_⟩
+  have := used_cases wf'
+  simp [init] at this
+  exact this
 
 end PV.SB
